@@ -220,6 +220,19 @@ def sampling(tier, rng, rep):
         nv = np.concatenate([[rng.uniform(-0.5, 0.5)], (lambda u: u / np.linalg.norm(u) * rng.uniform(1, 2))(rng.normal(size=n))])
         isos.append(("reflection", rep.attempt("reflection_runs", {"n": n, "normal": nv.tolist()}, lambda: h.Hyperplane(nv.copy()).reflection_across())))
         isos.append(("spacelike_to", rep.attempt("spacelike_to_runs", {"n": n, "v": nv.tolist()}, lambda: h.spacelike_to(nv.copy()))))
+        # composite hyperplanes (arrays of normals of rank 1 and 2, square grids included): an array of reflections, each an isometry
+        # negating its own normal
+        for cshape in ((n + 2,), (2, 2), (2, n + 2)):        # (a last extent of n+1 would be read as one hyperplane's full data: listed finding of C15)
+            nvc = np.concatenate([rng.uniform(-0.5, 0.5, size=cshape + (1,)), (lambda u: u / np.linalg.norm(u, axis=-1, keepdims=True) * rng.uniform(1, 2, size=cshape + (1,)))(rng.normal(size=cshape + (n,)))], axis=-1)
+            inpc = {"n": n, "normals": nvc.tolist(), "shape": list(cshape)}
+            Rc = rep.attempt("composite_reflection_runs", inpc, lambda: h.Hyperplane(nvc.copy()).reflection_across().proj_data)
+            if Rc is not None:
+                if Rc.shape != cshape + (n + 1, n + 1):
+                    rep.fail("composite_reflection_shape", f"{Rc.shape}", inpc)
+                elif not np.all(np.abs(Rc @ J @ np.swapaxes(Rc, -1, -2) - J) <= 1e-7 * np.maximum(1.0, np.max(np.abs(Rc)) ** 2)):
+                    rep.fail("preserves_form", "a reflection of a composite hyperplane is not an isometry", inpc)
+                elif not np.all(np.abs(np.einsum('...i,...ij->...j', nvc, Rc) + nvc) <= 1e-7 * (1 + np.max(np.abs(nvc)))):
+                    rep.fail("composite_reflection_negates_its_normal", "", inpc)
         # the hyperplane given by n generic ideal points (Subspace / Geodesic route: the normal is found by orthogonalisation)
         idl = rng.normal(size=(n, n)); idl /= np.linalg.norm(idl, axis=-1, keepdims=True)
         idl = np.concatenate([np.ones((n, 1)), idl], axis=1) * rng.uniform(0.5, 2, size=(n, 1))
